@@ -20,7 +20,7 @@ theorem W.congr {A : List Nat} {s s' : State} (h : W A s) (e1 : s'.threads = s.t
 
 /-- statements -/
 def WUr (f : State → Nat → Nat → State) : Prop :=
-  ∀ A C W' s src name, Inv C W' none s → (C = [] ∨ name = 0 ∨ 100 ≤ src) → W A s → Ok (f s src name) (W A (f s src name))
+  ∀ A C W' s src name, Inv C W' none s → (C = [] ∨ name = 0 ∨ QSrc src name) → W A s → Ok (f s src name) (W A (f s src name))
 
 def WSwf (f : State → Nat → Nat → Bool → State) : Prop :=
   ∀ A C W' s t name d, Inv C (t :: W') none s →
@@ -90,7 +90,7 @@ theorem vmSuspend_w (A : List Nat) (s : State) (p : Nat) : WR A s (vmSuspend s p
   · exact h u th' hu
 
 theorem regWait_w (fuel : Nat) (A : List Nat) {s : State} (h : NInv s) (o n c : Nat) (hc : 100 ≤ c)
-    (ho : o < 100 ∨ n = 0) : WR A s (regWait (stop fuel) s o n c) := by
+    (ho : o < 100 ∨ NameOK n) : WR A s (regWait (stop fuel) s o n c) := by
   unfold regWait
   simp only
   have h1 := pushNotify_ninv h o n c hc ho
@@ -174,7 +174,7 @@ theorem wakeFold_w {swf : State → Nat → Nat → Bool → State} (hp : Pres3 
 
 theorem unregNotify_w {fuel : Nat} (hswf : ISwf (stoppedWaitFor fuel)) (hsn : ISn (stoppedNotify fuel))
     (hj : WSwf (stoppedWaitFor fuel)) {A C W' : List Nat} {s : State} (h : Inv C W' none s) (src name : Nat)
-    (hside : C = [] ∨ name = 0 ∨ 100 ≤ src) (j : W A s) :
+    (hside : C = [] ∨ name = 0 ∨ QSrc src name) (j : W A s) :
     Ok (unregNotify (stoppedWaitFor fuel) (stoppedNotify fuel) s src name)
       (W A (unregNotify (stoppedWaitFor fuel) (stoppedNotify fuel) s src name)) := by
   unfold unregNotify
@@ -355,9 +355,9 @@ theorem exec_w_succ {fuel : Nat} (jh : WHx fuel) : WEx (exec (fuel + 1)) := by
         have halive : (spawnNew s c l).alive s.nextTid = true := by
           rw [State.alive_thread _ (by simp [State.isThread]; exact h.n.tid100)]
           exact (aliveTh_iff i1.n.nodup _).2 ⟨r1, hr1, hd1⟩
-        have j2 := regWait_w fuel _ i1.n s.nextTid 0 c ht (Or.inr rfl) j1
+        have j2 := regWait_w fuel _ i1.n s.nextTid 0 c ht (Or.inr nameOK_zero) j1
         refine (regWait_inv (fuel := fuel) none s.nextTid 0 (i1.toTop c) (fun _ => ⟨th0, hkeep, r.vm, r.hasVM⟩)
-          halive (Or.inr rfl) (Or.inr ⟨rfl, r'.noOwner i1⟩)).bind ((presAll fuel).sei _ _) (fun p => ?_)
+          halive (Or.inr nameOK_zero) (Or.inr ⟨rfl, r'.noOwner i1⟩)).bind ((presAll fuel).sei _ _) (fun p => ?_)
         obtain ⟨p1, p2, _, _, p5, p6⟩ := p
         have hr2 : thFind (regWait (stop fuel) (spawnNew s c l) s.nextTid 0 c).threads s.nextTid = some ({ label := l, inst := s.nextInst, params := bindLoop (s.progParams.getD l 0) 0 [], parent := c } : Th) := by
           rw [p5 _ hne]; exact hrec
@@ -370,7 +370,18 @@ theorem exec_w_succ {fuel : Nat} (jh : WHx fuel) : WEx (exec (fuel + 1)) := by
     split
     · exact Ok.pure j
     · exact Ok.pure (waitOnGuarded_w fuel _ h.n th.parent ms j)
-  | waittillParent names => exact absurd hok (by simp [Instr.ok])
+  | waittillParent names =>
+    rw [exec_waittillParent]
+    split
+    · exact Ok.pure j
+    · cases hc : s.cur with
+      | none => exact Ok.pure j
+      | some c =>
+        have hc100 : 100 ≤ c := h.n.cur c hc
+        simp only
+        exact Ok.pure (foldl_mem_inv (fun S => NInv S ∧ W (t :: A) S) (fun s n => regWait (stop fuel) s th.parent n c) names s
+          (fun n hn S hS => ⟨regWait_ninv (nAll fuel).stp hS.1 th.parent n c hc100 (Or.inr (hok n hn)),
+            regWait_w fuel _ hS.1 th.parent n c hc100 (Or.inr (hok n hn)) hS.2⟩) ⟨h.n, j⟩).2
   | notifyParent n =>
     rw [exec_notifyParent]
     split
